@@ -54,7 +54,7 @@ def run(pid: str) -> int:
     ck = core.Check(pid, "model_checking")
     rnd = random.Random(ck.seed)
     suffix = "" if ck.quick else "_thorough"
-    nproc = min(12, os.cpu_count() or 4)
+    nproc = min(int(os.environ.get("VERIF_NPROC", "12")), os.cpu_count() or 4)
 
     replay = os.environ.get("VERIF_REPLAY")
     fam = "replay"
